@@ -192,12 +192,25 @@ class Exec:
             if not feas:
                 raise PathEnd("infeasible")
             idx = feas[0]
+            if getattr(self, "nofork", 0) and len(feas) > 1:
+                raise Unsupported("a side evaluation (generic element of a lazy sequence / filter) would fork")
             for j in feas[1:]:
                 self.work.append(self.trail + [j])
         self.trail.append(idx)
         if conds[idx] is not None:
             self.assume(conds[idx])
         return idx
+
+    def side_eval(self, assumption, fn):
+        """evaluate fn() under a temporary assumption, without forking (used for generic elements: kinds, filters)"""
+        npc = len(self.pc)
+        self.pc.append(assumption)
+        self.nofork = getattr(self, "nofork", 0) + 1
+        try:
+            return fn()
+        finally:
+            self.nofork -= 1
+            del self.pc[npc:]
 
     def feasible(self, cond):
         cond = z3.simplify(cond)
@@ -1271,8 +1284,10 @@ class Exec:
         try:
             rec(0)
         except _SymComp as sc:
-            if len(e.generators) != 1 or e.generators[0].ifs:
-                raise Unsupported("comprehension over symbolic iteration space with filter/nesting at %s" % self.where(e))
+            if len(e.generators) != 1:
+                raise Unsupported("nested comprehension over a symbolic iteration space at %s" % self.where(e))
+            if e.generators[0].ifs:
+                return self.registry.filtered_comprehension(self, sc.spec, e.generators[0], sub, elt, e)
             return self.registry.symbolic_comprehension(self, sc.spec, e.generators[0], sub, elt, e)
         return out
 
